@@ -430,7 +430,8 @@ def main(argv=None):
 
 
 def finish(prop, pid, tier, seed, agg, t0, write_evidence=True, replay_mode=False):
-    known = [k for k in load_known() if k.get("property") == pid and k.get("status") == "known"]
+    # a finding belongs to one property; `also` lists further properties whose checks run into the same defect
+    known = [k for k in load_known() if (k.get("property") == pid or pid in k.get("also", [])) and k.get("status") == "known"]
     out_dir = os.path.join(VERIF, "out", "replay", pid)
     violations = []
     known_hits = {}
